@@ -58,6 +58,17 @@ Theorem C10_decode_spec : forall b p, decode_packet b = Ok p -> wire_ok b p.
 Proof. exact decode_packet_spec. Qed.
 Print Assumptions C10_decode_spec.
 
+(* the receive loop of the IP client (one retry when the context has a deadline):
+   whichever datagram of the sequence ds the measurement is computed from, its
+   authenticator verifies under the client's key over exactly the bytes that
+   precede it, and it carries the identifier of the outstanding request *)
+Theorem C10_client_loop_sound : forall seal open, ideal_aead seal open ->
+  forall deadline key reqID ds k,
+  client_loop open deadline key reqID ds 0 0 = Some k ->
+  exists p, verifies seal (nth k ds []) key p /\ p_uid p = reqID.
+Proof. exact c10_client_loop_sound0. Qed.
+Print Assumptions C10_client_loop_sound.
+
 (* ---- tampering, keys, direction, identifier ---- *)
 
 (* two datagrams that verify and carry the same ciphertext were verified under
